@@ -208,6 +208,24 @@ func (b *docBuilder) commaList(name string, items []string, foldMask int) {
 	b.line(name + ": " + sb.String())
 }
 
+// commaListTrailing: as commaList, with a comma after the last item as well.
+func (b *docBuilder) commaListTrailing(name string, items []string, foldMask int) {
+	var sb strings.Builder
+	for i, it := range items {
+		if i > 0 {
+			if foldMask&(1<<uint(i-1)) != 0 {
+				sb.WriteString(",\n ")
+				b.feats["folded"] = true
+			} else {
+				sb.WriteString(", ")
+			}
+		}
+		sb.WriteString(it)
+	}
+	b.feats["trailing-comma"] = true
+	b.line(name + ": " + sb.String() + ",")
+}
+
 func (b *docBuilder) spaceList(name string, items []string) {
 	b.line(name + ": " + strings.Join(items, " "))
 }
